@@ -301,9 +301,9 @@ def check_C14(tier, seed):
     return res.finish()
 
 
-def generic_record_validate(prop, res, sub, args, trace_module, consts, label, shards=16):
+def generic_record_validate(prop, res, sub, args, trace_module, consts, label, shards=16, features=()):
     """run a `vh <sub>` recorder and validate its shards with a Trace_* spec"""
-    exe = build_harness()
+    exe = build_harness(features=features)
     out = fresh(prop, label)
     rc, o, err = run_vh(exe, [sub, "--out", os.path.join(out, "trace"), "--shards", shards] + args, inflight=os.path.join(out, "inflight"))
     if rc != 0:
@@ -403,6 +403,9 @@ def check_C16(tier, seed):
                             "the replay compares the number of live arenas after every step (hook: released-arena counter) and requires the heap to return exactly to its previous level "
                             "after every history; survivors are read in full after their document is dropped. non-trivial = histories containing at least one mutation")
     dom_replay("C16", tier, seed, res, ("arena", "leak", "crash"))
+    # values own their data: entry points that overwrite the input buffer before reading the value (incl. the
+    # embedded / stream / raw-number paths) are judged by the denotation of the text
+    jt_record_validate("C16", tier, seed + 16, res, 3000 if tier == QUICK else 100000, checks=("value", "panic"))
     res.coverage["exhaustive"] = True
     return res.finish()
 
@@ -537,4 +540,6 @@ def check_C06(tier, seed):
                             "(member order, duplicates, exact integers, bit-exact floats), s is compact canonical text, s2 = s, Display = to_string = to_vec, pretty = PrettyText(Denotes(s)), and "
                             "that raw-number mode reproduces every number literal verbatim; the sort_keys build is checked by a second harness variant in the thorough tier")
     generic_record_validate("C06", res, "sr-record", ["--seed", seed, "--n", 4000 if tier == QUICK else 200000, "--mode", "rt"], "Trace_Ser", {}, "rt")
+    # the same round trips through a harness built with sonic-rs's sort_keys feature
+    generic_record_validate("C06", res, "sr-record", ["--seed", seed + 6, "--n", 2500 if tier == QUICK else 100000, "--mode", "rt"], "Trace_Ser", {}, "rt_sort_keys", features=("sort_keys",))
     return res.finish()
